@@ -301,6 +301,47 @@ func c08(r *engine.Report, p *engine.Program) {
 	}
 	r.Min("R5-no-io-under-lock", 8)
 	requestIsolationRule(r, p, "R6-request-isolation")
+	// R7 one failed connection attempt does not end the service: in ConnectionListener the loop
+	// returns only when its context is done, never because Accept reported an error
+	if cl := p.Func("(*controlsvc.Server).ConnectionListener"); cl != nil {
+		var acc *ssa.Call
+		for _, ci := range engine.CallsIn(cl) {
+			if ci.Common().IsInvoke() && ci.Common().Method.Name() == "Accept" {
+				acc, _ = ci.(*ssa.Call)
+			}
+		}
+		ok, why := acc != nil, "listener.Accept() not found"
+		if ok {
+			var errV ssa.Value
+			for _, v := range callResult(acc, 1) {
+				errV = v
+			}
+			_, failed := engine.NilCmpEdges(cl, func(v ssa.Value) bool { return engine.Unwrap(v) == errV })
+			isAcc := func(in ssa.Instruction) bool { return in == ssa.Instruction(acc) }
+			// ctx.Err() != nil edges may leave
+			ctxDone := engine.EdgeSet{}
+			for _, ci := range engine.CallsIn(cl) {
+				if ci.Common().IsInvoke() && ci.Common().Method.Name() == "Err" {
+					if c, isC := ci.(*ssa.Call); isC {
+						_, nn := engine.NilCmpEdges(cl, func(v ssa.Value) bool { return engine.Unwrap(v) == ssa.Value(c) })
+						ctxDone.Add(nn...)
+					}
+				}
+			}
+			if len(failed) == 0 {
+				ok, why = false, "the error of Accept is not tested"
+			}
+			for _, e := range failed {
+				if hit := reachFromEdge(cl, e, ctxDone, isAcc, func(in ssa.Instruction) bool { _, isR := in.(*ssa.Return); return isR }); hit != nil {
+					ok, why = false, "after a failed Accept the accept loop can return although its context is not done: one aborted or malformed connection attempt (or a transient EMFILE) stops the control service on that listener for good"
+				}
+			}
+		}
+		r.Check("R7-accept-loop", "ConnectionListener: a failed Accept does not end the accept loop", cl.Pos(), ok,
+			"from the Accept-failed edge, with the ctx.Err() != nil exits removed, no return is reachable before the next Accept", why)
+	} else {
+		r.Broken("ConnectionListener not found")
+	}
 }
 
 func stripTemps(s string) string {
